@@ -57,6 +57,12 @@ def check_step(ctx, step, res, ref, spec_lines, spec_meta):
     sigbase = signature(step, res)
     if isinstance(ref, BaseException):
         return "ref-invalid"     # the float program is not valid: outside the property
+    if step.rel == "refusal":
+        # documented refusal: the dtype of a packed low-bit tensor cannot be changed (ValueError)
+        if isinstance(res, ValueError):
+            return "documented-refusal"
+        ctx.spec_failures.append((f"C05:documented-refusal-not-raised:{sigbase}", {"op": name, "got": type(res).__name__}))
+        return "differs"
     if isinstance(res, BaseException):
         sig = f"C05:raises:{sigbase}:{exc_name(res)}"
         ops = step.operands
@@ -96,12 +102,14 @@ def check_step(ctx, step, res, ref, spec_lines, spec_meta):
             kt = next((o for o in step.operands if isinstance(o, torch.Tensor) and not oc.is_q(o) and o.numel() == 1), None)
             k = Fraction(float(kt)) if kt is not None else Fraction(1)
         Fc = F
-        if step.name == "to":   # the coarser of source and target format bounds the difference
+        Fe = F
+        if step.name == "to":   # relative term: the coarser precision of source and target; absolute term: the narrower exponent range
             src = fmt_of_dtype(step.operands[0].dtype)
             order = {"f32": 0, "f16": 1, "bf16": 2}
             Fc = F if order[F] >= order[src] else src
+            Fe = "f16" if "f16" in (F, src) else Fc
         qm = {"qint8": 128, "e4m3": 448, "e5m2": 57344}[oc.QNAME[step.operands[0].qtype.name if oc.is_qb(step.operands[0]) else step.operands[1].qtype.name]]
-        spec_lines.append(f"spec05r {Fc} {F} {qm} {k.numerator} {k.denominator} {list_s(bits_of(d, F))} {list_s(bits_of(ref, F))}")
+        spec_lines.append(f"spec05r {Fc} {Fe} {F} {qm} {k.numerator} {k.denominator} {list_s(bits_of(d, F))} {list_s(bits_of(ref, F))}")
         spec_meta.append((f"C05:rescale-error:{sigbase}", step))
         return "ok"
     if step.rel == "requant":
